@@ -43,6 +43,7 @@ mod execute_imports {
         genbal_cmp,
         listingz,
         BalanceUtil,
+        GetComPoolMsg,
         Bucket,
         FeeDenom,
         GenericBalance,
